@@ -7,7 +7,19 @@ HOOK_COMMITS = subprocess.run("git -C /repo log --format=%H --grep='^verif hooks
 
 TECH = "Coq model + machine-checked theorems (invariants / refinement / codec round-trip); layout regenerated from source; vm_compute correspondence against the Go implementation"
 
+CORR = " The executable model is tied to the implementation by evaluating it inside Coq (vm_compute) on recorded operation histories and foreign images and comparing results, in-memory header and descriptors, cached minimum IDs and all backing bytes after every step; the property's predicate is also evaluated directly on the implementation (oracle) to find the replay when something breaks."
+NOTE = "Trusted: Coq kernel+VM; hand-written model (coq/Image.v, Machine.v) tied to the Go code only by the correspondence on the cases counted in the evidence; harness, Exec.v comparison, run.py. Hypotheses visible in the theorems: arguments have their Go types (wf_dinput, time_ok), the image stays below 2^62 bytes (add_fits), the digest function returns 32 bytes."
+
 CLAIMED = {
+ "C01": dict(
+   text="Proof: CreateContainer with any well-typed options stores every object exactly (theorem create_inv: all descriptor attributes, content bytes, alignment, ID = position+1, launch script/ID/times), a later accepted add likewise (add_inv), no later operation changes an undeleted object (step_persist), GetData returns the stored region, reading after a fresh load is the same (load_image = handle), OCI digests are taken over exactly the stored bytes. Unbounded in number, size, alignment and mix of objects." + CORR,
+   note=NOTE, ref="5 (C01)"),
+ "C03": dict(
+   text="Proof: in every reachable state the table lies between header and data, live regions lie in the declared data section and in the file and are pairwise disjoint (invariant, by induction over operations); a new object goes to the aligned offset at/after all data and leaves every earlier byte alone; delete keeps survivors' bytes, compaction ends the file exactly at the data end, zeroing leaves zeros in exactly the deleted regions; no operation disturbs a bystander's descriptor or bytes; nextAligned is correct for every non-negative offset and every alignment, with the overflow error exactly when the result exceeds MaxInt64." + CORR,
+   note=NOTE, ref="5 (C03)"),
+ "C08": dict(
+   text="Proof: in every reachable state (any creation or well-formed foreign image, any history incl. rejected operations) LoadContainer on the file's current bytes returns exactly the open handle - header, descriptors and cached minimum IDs (canonical form) - so every function of handle and storage is answered identically; reload is the identity step." + CORR,
+   note=NOTE, ref="5 (C08)"),
  "C11": dict(
    text="Proof: the struct layouts/constants regenerated from the source on every run are proved equal to the SIF v1 tables (reflexivity), the layout-driven codec is proved to round-trip in both directions for every layout, value and byte string, and header/descriptor/table instances follow. The executable model of create/add/delete/set/load is tied to the implementation by evaluating it inside Coq on recorded histories and comparing all backing bytes after every step.",
    note="Trusted: Coq kernel+VM, translator (reflection hook + go/ast), SpecV1 transcription, correspondence harness and Exec.v comparison. The Go code itself is modelled, not verified.",
